@@ -59,8 +59,8 @@ def template_of(cfg):
     if cfg["layout"] == "dirs":
         d = year + "/" + ("{doy}" if cfg["date"] == "doy" else "{month}/{day}")
         return "/data/" + d + "/" + user + (t if t else "file") + end + (".vA.nc" if user else ".v1.2.nc")
-    # duplicated placeholder: the year appears in the directory and in the name
-    return "/data/" + year + "/" + user + date + ("_" + t if t else "") + end + ".nc"
+    # duplicated placeholders: the year -- and the user placeholder (default regex) -- appear in the directory and in the name
+    return "/data/" + year + "/" + ("{satname}/" if user else "") + user + date + ("_" + t if t else "") + end + ".nc"
 
 
 def _fresh_dt(name, depth):
@@ -305,6 +305,10 @@ def bounded_wildcards(rng, tier):
         ("/d/{year2}{doy}/{sat}/*{hour}{minute}-{end_hour}{end_minute}.nc.gz", {"sat": "metop.b"}, {"sat": r"[\w.]+"}),
         ("/d/{mode}/{year}-{month}-{day}_{mode}.txt", {"mode": "night"}, {"mode": ["day", "night"]}),
         ("/d/{year}/{doy}/orbit{orbit}_{hour}{minute}{second}{millisecond}.dat", {"orbit": "01234"}, {"orbit": r"\d{5}"}),
+        # repeated user placeholders: default regex, a regex with an escaped dot, a regex with a star
+        ("/d/{sat}/{year}/{sat}_{year}{month}{day}.nc", {"sat": "NOAA18"}, {}),
+        ("/d/{ver}/{year}{month}{day}T{hour}{minute}_{ver}.nc", {"ver": "v10.2"}, {"ver": r"v\d+\.\d+"}),
+        ("/d/{tag}/{year}/{doy}/{tag}-{hour}.bin", {"tag": "ab"}, {"tag": r"[a-z]*"}),
     ]
     dates = []
     for y in (1965, 1999, 2000, 2016, 2024, 2064):
